@@ -26,7 +26,7 @@ PROP = {
                   "prefix of its delivery trace), every message still to come, every field path of its CBOR tree x 26 malformations, wrong "
                   "headers, arbitrary byte strings, plus crafted two-message cases, through the real CanAccept/Accept in a supervised "
                   "child process (address-space limit, memory watchdog, per-case timeout).",
-    "level_note": "PARTIAL: Go panics, time and allocation are runtime behaviour that the Lean model cannot exhibit; the runtime claim is "
+    "level_note": "Suite sess-deviate (sampled, judged): deviations that need the deviating party's own state (a FROST chain-key contribution of the wrong length, committed and opened consistently) must not panic an honest party. PARTIAL: Go panics, time and allocation are runtime behaviour that the Lean model cannot exhibit; the runtime claim is "
                   "carried by the stream (exhaustive over field paths x malformations for FROST and Doerner, a seeded slice for CMP: every "
                   "case replays the victim's proofs, 0.5-5 s each) and by the syntactic guard tables. Third-party decoder internals "
                   "(fxamacker/cbor) are exercised, not modelled. The TwoPartyHandler is judged with the same lifecycle predicate.",
